@@ -60,6 +60,12 @@ def localScipyCall {α : Type} (minimize : (List α → α) → List α → Opti
   | some (x, f) => some ⟨names.zip x, f⟩
   | none => none
 
+/-- `[bounds.get(name, default) for name in p0]`: the box handed to scipy for the i-th entry of `x0` is the one the
+caller gave for the i-th NAME of `p0` (or the default), whatever the order of the `bounds` dict -/
+def fillBounds {α : Type} (dflt : α × α) (bounds : List (String × (α × α))) (names : List String) :
+    List (α × α) :=
+  names.map fun n => (bounds.lookup n).getD dflt
+
 /-- the tail of `fit.steady_state` / `time_course` / `protocol_time_course`:
 `match minimizer(fn, p0, bounds).value: case OptimisationState(parameters, residual): Fit(...)`. -/
 def fitWrap {α : Type} (minimizer : (List (String × α) → α) → List (String × α) → Option (OptState α))
